@@ -218,4 +218,20 @@ PROPS = {
         ],
         "assumptions": [],
     },
+    "C08": {
+        "propfile": "PropC08.v",
+        "n": {"quick": 60, "thorough": 1500},
+        "corr": "verdict equality of VerifyRefFull / VerifyRef across persistent-cache configurations (metamorphic) ; cache index lookups vs scans (Cache.v)",
+        "rule": "histories as in C01 (principals share no keys), each verified (main full, main latest-only, feature full) with: no cache; "
+                "cache freshly populated (PopulatePersistentCache) - first run; repeated and reordered runs on the advanced cache / "
+                "checkpoints; no cache, repeated; cache populated at two random earlier lengths k of the log. All verdicts and tips are "
+                "compared with the no-cache ones, and the full ref listing except the cache ref before/after. non-trivial = a rejecting "
+                "verdict or a history longer than 8 entries",
+        "theorems": ["C08_index_is_sorted_set", "C08_complete_cache_equiv", "C08_lookup_is_scan"],
+        "trusted": [
+            "the equivalence for whole verifications is a metamorphic check on the implementation, not a theorem (partial)",
+            "VerifyRefFromEntry / VerifyMergeable are not run under cache configurations",
+        ],
+        "assumptions": [],
+    },
 }
